@@ -31,4 +31,149 @@ def nextYMD (y m d : Int) : Int × Int × Int :=
   else if m < 12 then (y, m + 1, 1)
   else (y + 1, 1, 1)
 
+
+/-! ### code point ↔ one-character string
+Strings are lists of Unicode scalar values (`Nat`).  `isScalar` is exactly the validity test of Rust's
+`char::try_from(u32)`: not a surrogate, at most 0x10FFFF. -/
+
+def isScalar (n : Nat) : Bool := decide (n < 0xD800) || (decide (0xE000 ≤ n) && decide (n < 0x110000))
+
+/-- `chr` (int.rs :303-311): `to_u32` fails outside 0 … 2^32-1, `char::try_from` fails on surrogates and
+above 0x10FFFF; both failures are error values -/
+def chr (i : Int) : Except String (List Nat) :=
+  if i < 0 ∨ 4294967296 ≤ i then .error "number too large"
+  else if isScalar i.toNat then .ok [i.toNat]
+  else .error "value is not a unicode char"
+
+/-- `code_point` (str.rs :251-258): defined on strings of exactly one character -/
+def codePoint (s : List Nat) : Except String Int :=
+  match s with
+  | [c] => .ok (c : Int)
+  | _ => .error "cannot get code_point a string without exactly one char"
+
+/-! ### JSON strings
+`escapeStr` is `serde_json::Serializer::serialize_str` with the default (compact) formatter, which
+`__std_json_serialize_str` (json.rs :182-201) calls: quote, backslash and the control characters below 0x20 are
+escaped (`\b \t \n \f \r`, otherwise `\u00XX` with lower-case hex digits), everything else is copied.
+`unescapeStr` is the reader's side (`serde_json` `parse_str`): the escapes `\" \\ \/ \b \f \n \r \t \uXXXX`
+(with surrogate pairs), raw control characters are rejected. -/
+
+def hexDigit (n : Nat) : Nat := if n < 10 then 48 + n else 87 + n    -- '0'.. '9', 'a' .. 'f'
+
+def escapeChar (c : Nat) : List Nat :=
+  if c = 34 then [92, 34]            -- \"
+  else if c = 92 then [92, 92]       -- \\
+  else if c = 8 then [92, 98]        -- \b
+  else if c = 9 then [92, 116]       -- \t
+  else if c = 10 then [92, 110]      -- \n
+  else if c = 12 then [92, 102]      -- \f
+  else if c = 13 then [92, 114]      -- \r
+  else if c < 32 then [92, 117, 48, 48, hexDigit (c / 16), hexDigit (c % 16)]
+  else [c]
+
+def escapeBody : List Nat → List Nat
+  | [] => []
+  | c :: cs => escapeChar c ++ escapeBody cs
+
+def escapeStr (s : List Nat) : List Nat := 34 :: (escapeBody s ++ [34])
+
+def hexVal (c : Nat) : Option Nat :=
+  if 48 ≤ c ∧ c ≤ 57 then some (c - 48)
+  else if 97 ≤ c ∧ c ≤ 102 then some (c - 87)
+  else if 65 ≤ c ∧ c ≤ 70 then some (c - 55)
+  else none
+
+def hex4 (a b c d : Nat) : Option Nat :=
+  match hexVal a, hexVal b, hexVal c, hexVal d with
+  | some a, some b, some c, some d => some (((a * 16 + b) * 16 + c) * 16 + d)
+  | _, _, _, _ => none
+
+/-- one simple escape letter after a backslash -/
+def simpleEscape (e : Nat) : Option Nat :=
+  if e = 34 then some 34
+  else if e = 92 then some 92
+  else if e = 47 then some 47
+  else if e = 98 then some 8
+  else if e = 102 then some 12
+  else if e = 110 then some 10
+  else if e = 114 then some 13
+  else if e = 116 then some 9
+  else none
+
+/-- reads the characters after the opening quote; `acc` is the decoded prefix (reversed) -/
+def unescapeBody : List Nat → List Nat → Option (List Nat)
+  | [], _ => none                                      -- unterminated
+  | c :: rest, acc =>
+    if c = 34 then
+      match rest with
+      | [] => some acc.reverse                         -- the closing quote must end the text
+      | _ :: _ => none
+    else if c = 92 then
+      match rest with
+      | [] => none
+      | e :: rest1 =>
+        if e = 117 then                                -- \uXXXX
+          match rest1 with
+          | a :: b :: c :: d :: rest2 =>
+            match hex4 a b c d with
+            | none => none
+            | some u =>
+              if 0xD800 ≤ u ∧ u < 0xDC00 then
+                match rest2 with
+                | 92 :: 117 :: a2 :: b2 :: c2 :: d2 :: rest3 =>
+                  match hex4 a2 b2 c2 d2 with
+                  | some l =>
+                    if 0xDC00 ≤ l ∧ l < 0xE000 then
+                      unescapeBody rest3 ((0x10000 + (u - 0xD800) * 1024 + (l - 0xDC00)) :: acc)
+                    else none
+                  | none => none
+                | _ => none
+              else if 0xDC00 ≤ u ∧ u < 0xE000 then none
+              else unescapeBody rest2 (u :: acc)
+          | _ => none
+        else
+          match simpleEscape e with
+          | some v => unescapeBody rest1 (v :: acc)
+          | none => none
+    else if c < 32 then none
+    else unescapeBody rest (c :: acc)
+
+def unescapeStr (t : List Nat) : Option (List Nat) :=
+  match t with
+  | 34 :: rest => unescapeBody rest []
+  | _ => none
+
+/-! ### JSON values and the serialiser of include.rs (`serialize`, :1074-1090)
+A number carries the text `to_str` produced for it (float formatting is outside the model). -/
+
+inductive J where
+  | num (tok : List Nat)
+  | bool (b : Bool)
+  | str (s : List Nat)
+  | null
+  | arr (items : List J)
+  | obj (fields : List (List Nat × J))
+
+def joinWith (sep : List Nat) : List (List Nat) → List Nat
+  | [] => []
+  | [x] => x
+  | x :: y :: rest => x ++ sep ++ joinWith sep (y :: rest)
+
+mutual
+  /-- the chain `a?:number … || a?:bool … || a?:string … || a?:null … || a?:array … || serialize_object(a!:object)` -/
+  def ser : J → List Nat
+    | .num tok => tok
+    | .bool b => if b then [116, 114, 117, 101] else [102, 97, 108, 115, 101]
+    | .str s => escapeStr s
+    | .null => [110, 117, 108, 108]
+    | .arr items => [91] ++ joinWith [44] (serList items) ++ [93]
+    | .obj fields => [123] ++ joinWith [44] (serFields fields) ++ [125]
+  def serList : List J → List (List Nat)
+    | [] => []
+    | x :: xs => ser x :: serList xs
+  def serFields : List (List Nat × J) → List (List Nat)
+    | [] => []
+    | (k, v) :: rest => (escapeStr k ++ [58] ++ ser v) :: serFields rest
+end
+
 end XrayModel.Conv
